@@ -60,6 +60,9 @@ class Val:
     keys_of: Optional[str] = None            # this collection holds (a subset of) the keys of the named raw mapping
     key_of: Optional[str] = None             # this value is a key of the named raw mapping (hence hashable, present)
     is_datum: bool = False                   # the loader's argument itself (not something derived from it)
+    fieldvals: Optional[Dict[str, "Val"]] = None  # `self` of a repo class under construction: attribute -> constructor argument
+    unbound_if: Optional[FrozenSet[str]] = None   # the name may be unbound (its only assignment sits in a try body that
+    #                                               raised); the facts ('L:errors', 'F:flag') all hold on every such path
 
     def is_raw(self) -> bool:
         return self.taint == RAW
@@ -109,8 +112,44 @@ def _merge_env(a: Dict[str, Val], b: Dict[str, Val]) -> Dict[str, Val]:
             nv.true_user_only = bool(sides) and all(x.true_user_only for x in sides)
         nv.member_of = va.member_of & vb.member_of
         nv.has_keys = va.has_keys & vb.has_keys
+        if va.unbound_if is not None or vb.unbound_if is not None:
+            nv.unbound_if = va.unbound_if if vb.unbound_if is None else (
+                vb.unbound_if if va.unbound_if is None else va.unbound_if & vb.unbound_if)
         out[k] = nv
     return out
+
+
+def _handler_facts(h: ast.ExceptHandler) -> FrozenSet[str]:
+    """what a handler that falls through leaves behind for later tests: lists it appended to, flags it set to True"""
+    out = set()
+    for st in h.body:
+        if isinstance(st, ast.Expr) and isinstance(st.value, ast.Call) and isinstance(st.value.func, ast.Attribute) \
+                and st.value.func.attr in ("append", "add") and isinstance(st.value.func.value, ast.Name):
+            out.add("L:" + st.value.func.value.id)
+        if isinstance(st, ast.Assign) and isinstance(st.targets[0], ast.Name) and isinstance(st.value, ast.Constant) \
+                and st.value.value is True:
+            out.add("F:" + st.targets[0].id)
+    return frozenset(out)
+
+
+def _refute(env: Dict[str, Val], name: str) -> Dict[str, Val]:
+    """`name` (an error list / a flag) is known to be empty / False here: paths that appended to it / set it are excluded"""
+    out = env
+    for k, v in env.items():
+        if v.unbound_if and (("L:" + name) in v.unbound_if or ("F:" + name) in v.unbound_if):
+            if out is env:
+                out = dict(env)
+            out[k] = replace(v, unbound_if=None)
+    return out
+
+
+def _falsy_name(test: ast.expr) -> Tuple[Optional[str], Optional[str]]:
+    """(name known falsy when the test is TRUE, name known falsy when the test is FALSE)"""
+    if isinstance(test, ast.Name):
+        return None, test.id
+    if isinstance(test, ast.UnaryOp) and isinstance(test.op, ast.Not) and isinstance(test.operand, ast.Name):
+        return test.operand.id, None
+    return None, None
 
 
 class Esc:
@@ -481,6 +520,11 @@ class _Frame:
             self._log_test(st.test, env)
             self.eval(st.test, env, esc)
             et, ef = self.refine(st.test, env)
+            fz_t, fz_f = _falsy_name(st.test)
+            if fz_t is not None:
+                et = _refute(et, fz_t)
+            if fz_f is not None:
+                ef = _refute(ef, fz_f)
             flag = self._flag_of(st.test, env)
             if flag is not None and flag[1].const is flag[0] is False:
                 pass
@@ -703,7 +747,17 @@ class _Frame:
                                     env_h[nd.value.id] = vb
                 if h.name:
                     env_h[h.name] = Val(CLEAN, frozenset({"exc"}))
+                new_in_body = [k for k in env_b if k not in env and k != h.name]
+                for k in new_in_body:
+                    if k in env_h and env_h[k].unbound_if is None:
+                        env_h[k] = replace(env_h[k], unbound_if=frozenset())
                 e_h, env_ho, ft_h = self.exec_block(h.body, env_h)
+                if ft_h:
+                    facts = _handler_facts(h)
+                    env_ho = dict(env_ho)
+                    for k in new_in_body:
+                        if k in env_ho and env_ho[k].unbound_if is not None:
+                            env_ho[k] = replace(env_ho[k], unbound_if=env_ho[k].unbound_if | facts)
             finally:
                 self.caught_stack.pop()
                 self.handler_names.pop()
@@ -843,7 +897,10 @@ class _Frame:
             return Val(CLEAN, frozenset({type(e.value).__name__}))
         if isinstance(e, ast.Name):
             if e.id in env:
-                return env[e.id]
+                v0 = env[e.id]
+                if v0.unbound_if is not None and isinstance(e.ctx, ast.Load):
+                    self.add(esc, {"UnboundLocalError"}, e)
+                return v0
             return Val(CLEAN, expr=e)
         if isinstance(e, (ast.Tuple, ast.List, ast.Set)):
             elems = [self.eval(x, env, esc) for x in e.elts]
@@ -922,6 +979,8 @@ class _Frame:
             return self.eval_compare(e, env, esc)
         if isinstance(e, ast.Attribute):
             v = self.eval(e.value, env, esc)
+            if v.fieldvals is not None:
+                return v.fieldvals.get(e.attr, Val(CLEAN, expr=e))
             if v.taint == RAW:
                 if v.is_datum:
                     self.ev("probe", "." + e.attr)
@@ -1232,6 +1291,8 @@ class _Frame:
                 ci: ClassInfo = av[1]
                 release_pending()
                 A.callees_resolved.setdefault(fname_txt, f"repo class {ci.name}")
+                if raw_args:
+                    self._construct_effects(ci, call, argvals, kwvals, esc)
                 if A.H.known(ci.name):
                     result = _join_val(result, Val(CLEAN, frozenset({"exc"})))
                 else:
@@ -1289,6 +1350,46 @@ class _Frame:
         release_pending()
         A.callees_resolved.setdefault(fname_txt, "internal callable on non-raw values (A5)")
         return Val(LOADED)
+
+    def _construct_effects(self, ci: ClassInfo, call: ast.Call, argvals: List[Val], kwvals, esc: Escapes) -> None:
+        """code that runs while a repo class is instantiated with raw data: a hand-written __init__, or the __post_init__ of a
+        dataclass (error classes receive the offending datum, its unknown keys ...): whatever it does to the raw arguments can
+        raise before the LoadError even exists"""
+        A = self.A
+        repo = A.repo
+        init = repo.find_method(ci, "__init__")
+        post = repo.find_method(ci, "__post_init__")
+        if init is None and post is None:
+            return
+        if init is not None:
+            owner, fn = init
+            params = func_params(fn)
+            vals = [Val(CLEAN, fieldvals={})] + list(argvals)
+            full = vals + [Val(CLEAN)] * max(0, len(params) - len(vals))
+            for name, v in kwvals:
+                if name in params:
+                    full[params.index(name)] = v
+            sub_esc, _ = A.analyze(ctx_for(repo, owner.module, fn), full[:len(params)], via=self.via + (self.fctx.qual,))
+            for k, v in sub_esc.items():
+                esc.setdefault(k, v)
+            return
+        # dataclass: field order = annotated names of the MRO, bases first
+        names: List[str] = []
+        for c in reversed(repo.mro(ci)):
+            for st in c.node.body:
+                if isinstance(st, ast.AnnAssign) and isinstance(st.target, ast.Name) and "ClassVar" not in norm(st.annotation) \
+                        and st.target.id not in names:
+                    names.append(st.target.id)
+        fv: Dict[str, Val] = {}
+        for n_, v in zip(names, argvals):
+            fv[n_] = v
+        for n_, v in kwvals:
+            if n_ is not None:
+                fv[n_] = v
+        owner, fn = post
+        sub_esc, _ = A.analyze(ctx_for(repo, owner.module, fn), [Val(CLEAN, fieldvals=fv)], via=self.via + (self.fctx.qual,))
+        for k, v in sub_esc.items():
+            esc.setdefault(k, v)
 
     def _is_dynamic(self, node: ast.expr, env: Dict[str, Val]) -> bool:
         while isinstance(node, ast.Attribute):
